@@ -28,13 +28,8 @@ def run(ctx):
                             "on both sides of the PIP-10 activation; non-trivial = Go returned a value (not an error); chains: see distribution.chains")
     ctx.proof_stage()
     run_convert(ctx)
-    import importlib
-    try:
-        cm = importlib.import_module("props.chainrun")
-    except ImportError:
-        cm = None
-    if cm:
-        cm.run_for(ctx)
+    from . import ledger
+    ledger.run(ctx)
 
 
 def search(ctx, why):
